@@ -219,3 +219,37 @@ def export():
 
 if __name__ == '__main__' and sys.argv[1] == 'export':
     export()
+
+
+def benign(props):
+    """harmless changes (/tmp/seed/benign/<Cxx>/b<k>/): apply, build, pinned tests, then the property's quick check must
+    stay quiet (exit 0, no VIOLATION line); anything else is a false alarm to analyse"""
+    os.makedirs(S + '/benign_results', exist_ok=True)
+    for d in sorted(glob.glob('/tmp/seed/benign/C*/b*')):
+        pid = d.split('/')[-2]
+        if props and pid not in props:
+            continue
+        if not os.path.exists(os.path.join(d, 'patch.diff')):
+            continue
+        out = '%s/benign_results/%s_%s.json' % (S, pid, os.path.basename(d))
+        if os.path.exists(out):
+            continue
+        r = {'seed': d}
+        try:
+            fresh_wt()
+            rc, o = sh(['git', 'apply', os.path.join(d, 'patch.diff')], cwd=WT)
+            r['apply'] = rc
+            if rc == 0:
+                rcb, outb = sh("go build ./pkg/... && go build -tags verif ./pkg/... && go build -ldflags=-checklinkname=0 ./cmd/...", cwd=WT)
+                r['build'] = rcb
+                r['stable_missing'] = stable_ok()
+                r['detect'] = detect(d, [pid])
+                r['quiet'] = bool(r['detect']) and r['detect'][pid]['rc'] == 0 and not any(l.startswith('VIOLATION') for l in r['detect'][pid]['lines'])
+        except Exception as e:
+            r['error'] = repr(e)
+        json.dump(r, open(out, 'w'), indent=1)
+        print('BENIGN', pid, os.path.basename(d), 'apply', r.get('apply'), 'build', r.get('build'), 'stable_missing', r.get('stable_missing'), 'quiet', r.get('quiet'), flush=True)
+
+
+if __name__ == '__main__' and sys.argv[1] == 'benign':
+    benign(sys.argv[2:])
